@@ -6,6 +6,7 @@ closed with the Tc subset of a DT8 gear model (dalimc.env.gear102); all 16-bit v
 """
 from dalimc.core.runner import new_result, add_violation, observe, sample
 from dalimc.env import gear102 as G
+from . import _partner as P
 
 ID = "C14"
 OPTIMISED_STRIDE = {"quick": 6, "thorough": 12}      # every k-th shard once more in an interpreter started with -O
@@ -51,6 +52,7 @@ def shards(tier):
     out.append(("enums",))
     for a0 in range(0, 64, 16):
         out.append(("addr_sweep", a0, a0 + 16))
+    out += P.partner_shards(PARTNERS, [0, 1, 2, 3, "alt"])
     return out
 
 
@@ -198,7 +200,44 @@ def run_addr_sweep(res, lo, hi):
     sample(res, {"address_sweep": [lo, hi - 1], "groups": "sa mod 16"})
 
 
+def _partner_set():
+    from dali.gear.sequences import SetDT8ColourValueTc
+    from dali.address import GearShort
+    u = G.Gear(short=9, groups={1}, devicetypes=[8])
+    u.dtr0 = u.dtr1 = u.dtr2 = 0x3C
+    u.tc_actual, u.tc_limits = 0x0101, {0: 1, 1: 2, 2: 3, 3: 4}
+    return SetDT8ColourValueTc(GearShort(9), 0x0123), G.Bus([u]), lambda: (u.tc_actual, dict(u.tc_limits))
+
+
+def _partner_limit():
+    from dali.gear.sequences import SetDT8TcLimit
+    from dali.gear.colour import StoreColourTemperatureTcLimitDTR2 as L
+    from dali.address import GearShort
+    u = G.Gear(short=9, groups={1}, devicetypes=[8])
+    u.dtr0 = u.dtr1 = u.dtr2 = 0x3C
+    u.tc_actual, u.tc_limits = 0x0101, {0: 1, 1: 2, 2: 3, 3: 4}
+    return SetDT8TcLimit(GearShort(9), list(L)[-1], 0x0456), G.Bus([u]), lambda: (u.tc_actual, dict(u.tc_limits))
+
+
+def _partner_query():
+    from dali.gear.sequences import QueryDT8ColourValue
+    from dali.gear.colour import QueryColourValueDTR as Q
+    from dali.address import GearShort
+    u = G.Gear(short=9, groups={1}, devicetypes=[8])
+    u.tc_actual, u.tc_limits = 0x0101, {0: 1, 1: 2, 2: 3, 3: 4}
+    sel = [m for m in Q if m.name == "ColourTemperatureTC"][0]
+    u.colour_values = {sel.value: 0x0777}
+    return QueryDT8ColourValue(GearShort(9), sel), G.Bus([u]), lambda: (u.tc_actual, dict(u.tc_limits))
+
+
+PARTNERS = [("SetDT8ColourValueTc", _partner_set), ("SetDT8TcLimit", _partner_limit), ("QueryDT8ColourValue", _partner_query)]
+PARTNERED = [("addr_sweep", 0, 6), ("addr_sweep", 60, 64), ("illegal",), ("query", "quick", 0, 16)]
+
+
 def run_shard(shard):
+    if shard[0] == "partnered":
+        import sys
+        return P.run_partnered(sys.modules[__name__], shard, PARTNERS, PARTNERED)
     res = new_result()
     k = shard[0]
     if k == "addr_sweep":
